@@ -122,8 +122,11 @@ func useCheck(id, fam string, tier common.Tier) int {
 				}
 				// Phase D: the import spelled with another name or as a dot import (importing packages only).
 				if pk.Path != e1.PathD {
-					for _, sp := range []e1.Spell{e1.SpRenamedImp, e1.SpDotImport} {
+					for _, sp := range []e1.Spell{e1.SpRenamedImp, e1.SpDotImport, e1.SpLocalAlias, e1.SpThirdAlias} {
 						do(&e1.UseSpec{Pkg: pk, Mix: mix, Spell: sp, Sites: sites, Blocks: []e1.UseBlock{{Encl: e1.UEPlain, Stmts: all}, {Encl: e1.UEStructField, File: 1}, {Encl: e1.UEPkgVar, File: 1, Stmts: core}, {Encl: e1.UENoImport}}})
+						// the uses in another file than the one that holds the package's alias declarations
+						do(&e1.UseSpec{Pkg: pk, Mix: mix, Spell: sp, Sites: sites, Blocks: []e1.UseBlock{{Encl: e1.UEPlain, File: 1, Stmts: all}, {Encl: e1.UEPkgVarTyped, File: 1}}})
+						do(&e1.UseSpec{Pkg: pk, Mix: mix, Spell: sp, Sites: sites, Blocks: []e1.UseBlock{{Encl: e1.UEParamMock, File: 1}, {Encl: e1.UEPlain, File: 1, Stmts: core}}})
 						for _, encl := range bodyEncls {
 							for _, st := range all {
 								do(&e1.UseSpec{Pkg: pk, Mix: mix, Spell: sp, Sites: sites, Blocks: []e1.UseBlock{{Encl: encl, Stmts: []int{st}}}})
